@@ -71,7 +71,7 @@ def pvals_world(values, objs):
         'V': {'group': 'vals', 'params': [P('v'), P('ign', default=0, ignore=True), P('dflt', default=3, dpdv=True), P('pth', default=None, dtype='Path'),
                                           P('nic', nic='other_name', default='n'),
                                           # names that are prefixes of one another, next character below `=`: order is by NAME
-                                          P('dim', default=8), P('dim2', default=16), P('x-y', default=1), P('x', default=2), P('x.z', default=3)], 'inputs': [], 'data': 'json'},
+                                          P('unit', default='m/s', dpdv=True), P('one', default=1, dpdv=True), P('dim', default=8), P('dim2', default=16), P('x-y', default=1), P('x', default=2), P('x.z', default=3)], 'inputs': [], 'data': 'json'},
         'W': {'params': [P('w', default=1)], 'inputs': [bc('V')], 'data': 'json'},
     }
     variants = {}
@@ -86,6 +86,12 @@ def pvals_world(values, objs):
     variants['ign'] = [[['configs', 'root', 'values', 'v'], 0], [['configs', 'root', 'values', 'ign'], 5]]
     variants['dflt_same'] = [[['configs', 'root', 'values', 'v'], 0], [['configs', 'root', 'values', 'dflt'], 3]]
     variants['dflt_other'] = [[['configs', 'root', 'values', 'v'], 0], [['configs', 'root', 'values', 'dflt'], 4]]
+    # equal to the default but written in another form (1.4.0 compares with ==): not part of the key either
+    variants['dflt_float'] = [[['configs', 'root', 'values', 'v'], 0], [['configs', 'root', 'values', 'dflt'], 3.0]]
+    variants['unit_same'] = [[['configs', 'root', 'values', 'v'], 0], [['configs', 'root', 'values', 'unit'], 'm/s']]
+    variants['unit_placeholder'] = [[['configs', 'root', 'values', 'v'], 0], [['configs', 'root', 'values', 'unit'], '{LENGTH}/s'], [['global_vars'], {'LENGTH': 'm'}]]
+    variants['unit_placeholder_other'] = [[['configs', 'root', 'values', 'v'], 0], [['configs', 'root', 'values', 'unit'], '{LENGTH}/s'], [['global_vars'], {'LENGTH': 'km'}]]
+    variants['flag_true_for_1'] = [[['configs', 'root', 'values', 'v'], 0], [['configs', 'root', 'values', 'one'], True]]
     variants['nic'] = [[['configs', 'root', 'values', 'v'], 0], [['configs', 'root', 'values', 'other_name'], 'm']]
     variants['nic_ignored_key'] = [[['configs', 'root', 'values', 'v'], 0], [['configs', 'root', 'values', 'nic'], 'zzz']]
     variants['ctx'] = [[['configs', 'root', 'values', 'v'], 0], [['context'], {'kind': 'dict', 'data': {'v': [1, 'c']}}]]
